@@ -173,9 +173,10 @@ func (s *Sim) doRelays(st *Step) {
 	sh := s.sessionHeightAt(h)
 	header := pc.SessionHeader{ApplicationPubKey: KeyFor(s.cfg.KeySeed, appKey).PublicKey().RawString(), Chain: chain, SessionBlockHeight: sh}
 	s.node.Tm.CatchingUp = false
+	_, cached := pc.GetSession(header, pc.GlobalSessionCache)
 	disp, err := s.node.App.HandleDispatch(header)
 	s.res.Fault("offchain_dispatch")
-	s.checkDispatch(header, appAddr, disp, err)
+	s.checkDispatch(header, appAddr, disp, err, !cached)
 	if err != nil || disp == nil {
 		return
 	}
@@ -260,7 +261,7 @@ func firstWord(s string) string {
 	return strings.Join(f, "_")
 }
 
-func (s *Sim) checkDispatch(header pc.SessionHeader, appAddr string, disp *pc.DispatchResponse, err error) {
+func (s *Sim) checkDispatch(header pc.SessionHeader, appAddr string, disp *pc.DispatchResponse, err error, fresh bool) {
 	h := s.drv.Height
 	start := s.viewAt(header.SessionBlockHeight)
 	cur := s.committedView
@@ -300,8 +301,40 @@ func (s *Sim) checkDispatch(header pc.SessionHeader, appAddr string, disp *pc.Di
 		if !ok || sv.Status != sdk.Staked || !contains(sv.Chains, header.Chain) {
 			s.violate("C33", "session-node-not-staked-for-chain-at-start", "dispatch", fmt.Sprintf("height %d: session %s/%s@%d lists %s which was not staked for the chain at the session start", h, appAddr, header.Chain, header.SessionBlockHeight, a))
 		}
+		if fresh {
+			// generated by this call (no cached copy): the reference height is the committed height
+			// the call ran at, and every node must be eligible there
+			s.res.Probe("session_generated_fresh")
+			maxChains, _ := start.ParamInt("pos/MaximumChains")
+			cv, ok := cur.Validators[a]
+			why := ""
+			switch {
+			case !ok:
+				why = "no-longer-exists"
+			case cv.Jailed:
+				why = "jailed"
+			case !contains(cv.Chains, header.Chain):
+				why = "left-the-chain"
+			case featureOn(codec.EnforceMaxChainsUpdateKey, h) && int64(len(cv.Chains)) > maxChains:
+				why = "over-the-chain-limit"
+			}
+			if why != "" {
+				s.violate("C33", "session-node-ineligible-at-reference-height", why, fmt.Sprintf("height %d: session %s/%s@%d, generated at height %d, lists %s which is %s at that height", h, appAddr, header.Chain, header.SessionBlockHeight, h, a, why))
+			}
+			if ok && h > header.SessionBlockHeight && (sv.Jailed != cv.Jailed || fmt.Sprint(sv.Chains) != fmt.Sprint(cv.Chains)) {
+				s.res.Probe("session_node_changed_since_session_start")
+			}
+		}
 		if cv, ok := cur.Validators[a]; ok && sv.Jailed && cv.Jailed {
 			s.violate("C33", "session-node-jailed", "dispatch", fmt.Sprintf("height %d: session %s/%s@%d lists %s which is jailed at the session start and now", h, appAddr, header.Chain, header.SessionBlockHeight, a))
+		}
+	}
+	if fresh && h > header.SessionBlockHeight {
+		for a, sv := range start.Validators {
+			if cv, ok := cur.Validators[a]; sv.Status == sdk.Staked && contains(sv.Chains, header.Chain) && (!ok || cv.Jailed != sv.Jailed || !contains(cv.Chains, header.Chain)) {
+				s.res.Probe("fresh_session_with_candidate_changed_since_start")
+				break
+			}
 		}
 	}
 	if int64(len(nodes)) != count {
@@ -555,6 +588,15 @@ func (s *Sim) checkProofTx(b *blockObs, m pc.MsgProof, r abci.ResponseDeliverTx,
 		// the servicer counted a relay twice: the path the chain selected runs through a zero-width
 		// range and must be refused and reported as a replay
 		s.res.Probe("zero_width_path_submitted")
+		if c, ok := vb.Claims[claimStoreKey(vb, servicer, header)]; ok {
+			s.res.Tracef("   zero-width proof h=%d code=%d claim total=%d rootUpper=%d index=%d target=%v levels=%d ranges=%v", h, r.Code, c.TotalProofs, c.MerkleRoot.Range.Upper, m.MerkleProof.TargetIndex, m.MerkleProof.Target.Range, len(m.MerkleProof.HashRanges), func() []pc.Range {
+				var o []pc.Range
+				for _, x := range m.MerkleProof.HashRanges {
+					o = append(o, x.Range)
+				}
+				return o
+			}())
+		}
 		s.res.Case("dup-evidence-proof/zero-width")
 		if minted.IsPositive() || r.Code == 0 {
 			s.violate("C30", "zero-width-range-accepted", "dup-evidence", fmt.Sprintf("height %d: a proof whose path runs through a zero-width range returned code %d and minted %s", h, r.Code, minted))
@@ -896,6 +938,17 @@ func (s *Sim) duplicateEvidence(pn *pc.PocketNode) {
 	for _, ev := range evs {
 		if len(ev.Proofs) < 5 || pn.EvidenceStore.IsSealed(ev) {
 			continue
+		}
+		// only before the claim: the seal is in memory and does not survive a restart, and evidence
+		// altered after its claim was sent no longer matches the claimed root (a harness artefact,
+		// not a double-counted relay)
+		if _, claimed := s.claims[claimKeyOf(pn.GetAddress().String(), ev.SessionHeader)]; claimed {
+			continue
+		}
+		if s.committedView != nil {
+			if _, pending := s.committedView.Claims[claimStoreKey(s.committedView, pn.GetAddress().String(), ev.SessionHeader)]; pending {
+				continue
+			}
 		}
 		ev.Proofs = append(ev.Proofs, ev.Proofs[len(ev.Proofs)/2])
 		ev.NumOfProofs++
